@@ -3,6 +3,7 @@
   (Assumption of the property: live values are never all-zero bytes; in the model: tokens are non-zero.)
 -/
 import MRB.Seq.Run
+import MRB.Seq.Discipline
 
 namespace MRB.Props.C08
 open MRB
@@ -58,6 +59,61 @@ theorem C08_pop_move_empties_slot {s : St} {a : Sp} (h : Rel s a) (hal : Allowed
       intro t v; unfold readGuard St.setFault; split <;> (try split) <;> rfl
     rw [this, hdr]
 
+/-- **Conservation over whole histories.** For items with a destructor, from any freshly split buffer, over any
+contract-respecting history of the owned-item operations (any length, any buffer length, two or three stages,
+iterators dropped at any point), provided no undefined behaviour was recorded: for every token `t`,
+`copies in the (unreleased) buffer + destructor runs + copies handed to the caller by pop_move
+   = copies in the initial contents + copies stored by successful pushes and in-place stores`.
+A refused push stores nothing (its value goes back to the caller, C05). -/
+theorem C08_conservation (slots : List Nat) (hasW heap : Bool) (hlen : 1 ≤ slots.length) (ops : List Op)
+    (hal : AllowedRun (St.init slots hasW heap true) (Sp.init slots.length hasW) ops)
+    (hown : ∀ op ∈ ops, OwnedOp op = true)
+    (hnf : (run (St.init slots hasW heap true) ops).1.fault = none) (t : Nat) (ht : t ≠ 0) :
+    (run (St.init slots hasW heap true) ops).1.bal t + (handedAll ops (run (St.init slots hasW heap true) ops).2).count t =
+      slots.count t + (storedAll ops (run (St.init slots hasW heap true) ops).2).count t := by
+  have := ledger_run (rel_init slots hasW heap true hlen) (lifeInv_init slots hasW heap true) rfl ops hal hown hnf t ht
+  rw [this]; simp [St.bal, St.inBuf, St.init]
+
+/-- **Destroyed exactly once.** If moreover the tokens are pairwise distinct and the history ends with the buffer
+released, every token that was ever in the buffer was either destroyed exactly once (and never handed out) or handed
+to the caller exactly once (and never destroyed by the buffer): no leak, no double drop. -/
+theorem C08_exactly_once (slots : List Nat) (hasW heap : Bool) (hlen : 1 ≤ slots.length) (ops : List Op)
+    (hal : AllowedRun (St.init slots hasW heap true) (Sp.init slots.length hasW) ops)
+    (hown : ∀ op ∈ ops, OwnedOp op = true)
+    (hnf : (run (St.init slots hasW heap true) ops).1.fault = none)
+    (hrel : (run (St.init slots hasW heap true) ops).1.freed ≠ 0)
+    (hnd : (slots.filter (· ≠ 0) ++ storedAll ops (run (St.init slots hasW heap true) ops).2).Nodup)
+    (t : Nat) (ht : t ≠ 0) (hmem : t ∈ slots ++ storedAll ops (run (St.init slots hasW heap true) ops).2) :
+    (run (St.init slots hasW heap true) ops).1.drops.count t +
+      (handedAll ops (run (St.init slots hasW heap true) ops).2).count t = 1 :=
+  exactly_once slots hasW heap hlen ops hal hown hnf hrel hnd t ht hmem
+
+/-- The same for histories that follow the init discipline (`MRB.Seq.Discipline`): there the absence of undefined
+behaviour is a theorem (`C09_no_zero_use`), not a hypothesis. -/
+theorem C08_exactly_once_init_discipline (slots : List Nat) (hasW heap : Bool) (hlen : 1 ≤ slots.length) (ops : List Op)
+    (hal : AllowedRun (St.init slots hasW heap true) (Sp.init slots.length hasW) ops) (hd : DiscRun ops)
+    (hrel : (run (St.init slots hasW heap true) ops).1.freed ≠ 0)
+    (hnd : (slots.filter (· ≠ 0) ++ storedAll ops (run (St.init slots hasW heap true) ops).2).Nodup)
+    (t : Nat) (ht : t ≠ 0) (hmem : t ∈ slots ++ storedAll ops (run (St.init slots hasW heap true) ops).2) :
+    (run (St.init slots hasW heap true) ops).1.drops.count t +
+      (handedAll ops (run (St.init slots hasW heap true) ops).2).count t = 1 :=
+  exactly_once slots hasW heap hlen ops hal (fun op h => (hd op h).owned)
+    (no_fault_run (rel_init slots hasW heap true hlen) (NZ.init _ _) rfl ops hal hd).1 hrel hnd t ht hmem
+
+/-- And for the "always full" discipline (buffer built from existing data, plain stores, clone/peek only): every initial
+and every stored token is destroyed exactly once — by the store that replaces it or by the release of the buffer. -/
+theorem C08_exactly_once_full_discipline (slots : List Nat) (hasW heap : Bool) (hlen : 1 ≤ slots.length) (hocc : ∀ v ∈ slots, v ≠ 0)
+    (ops : List Op) (hal : AllowedRun (St.init slots hasW heap true) (Sp.init slots.length hasW) ops)
+    (hd : ∀ op ∈ ops, DiscFull op)
+    (hrel : (run (St.init slots hasW heap true) ops).1.freed ≠ 0)
+    (hnd : (slots.filter (· ≠ 0) ++ storedAll ops (run (St.init slots hasW heap true) ops).2).Nodup)
+    (t : Nat) (ht : t ≠ 0) (hmem : t ∈ slots ++ storedAll ops (run (St.init slots hasW heap true) ops).2) :
+    (run (St.init slots hasW heap true) ops).1.drops.count t +
+      (handedAll ops (run (St.init slots hasW heap true) ops).2).count t = 1 :=
+  exactly_once slots hasW heap hlen ops hal (fun op h => (hd op h).owned)
+    (full_run (rel_init slots hasW heap true hlen)
+      (by intro i hi; simp only [St.init] at hi ⊢; exact getD_ne_zero_of_mem slots i hi hocc) rfl ops hal hd).1 hrel hnd t ht hmem
+
 /-- Tie to the source: which store each push form performs, and the exact shape of the cell primitives
     (`check_zeroed` looks at every byte, `take_inner` leaves zeros, the cell destructor skips all-zero cells,
     the slice copy moves `len` whole items). -/
@@ -75,5 +131,19 @@ example :
     let ops : List Op := [.push 5, .push 6, .popMove, .pushInit 7, .pushInit 8, .dropIt .P, .dropIt .C]
     let r := run (St.init [1, 2, 3] false true true) ops
     r.1.drops = [1, 2, 3, 6, 7] ∧ r.1.freed = 1 ∧ r.1.fault = none ∧ r.2 = [.ok, .ok, .item 5, .ok, .err 8, .ok, .ok] := by decide
+
+/-- Non-vacuity of the history-level theorems: a zeroed three-slot heap buffer, init pushes of distinct tokens around
+the ring, a `pop_move`, a clone, both iterators dropped: the hypotheses of `C08_exactly_once_init_discipline` hold. -/
+def exOps : List Op := [.pushInit 5, .pushInit 6, .popMove, .pushInit 7, .cloneItem, .pushInit 8, .dropIt .P, .dropIt .C]
+
+example : AllowedRun (St.init [0, 0, 0] false true true) (Sp.init 3 false) exOps := by
+  simp only [exOps, AllowedRun, Allowed]; decide
+example : DiscRun exOps := by
+  intro op h; simp [exOps] at h; rcases h with h | h | h | h | h | h | h | h <;> subst h <;> simp [Disc]
+example :
+    (run (St.init [0, 0, 0] false true true) exOps).1.freed = 1 ∧
+    storedAll exOps (run (St.init [0, 0, 0] false true true) exOps).2 = [5, 6, 7, 8] ∧
+    handedAll exOps (run (St.init [0, 0, 0] false true true) exOps).2 = [5] ∧
+    (run (St.init [0, 0, 0] false true true) exOps).1.drops = [8, 6, 7] := by decide
 
 end MRB.Props.C08
